@@ -46,7 +46,7 @@ def DICTC(k=frozenset(), v=frozenset()):
 PYTYPE_TAGS = {"dict": {"dict"}, "list": {"list"}, "str": {"str"}, "int": {"int", "bool"}, "float": {"float"}, "bool": {"bool"}}
 PYKIND_OF_TYPE = {"dict": {"dictc"}, "list": {"list"}, "str": {"str"}, "int": {"int", "bool"}, "float": {"float"}, "bool": {"bool"},
                   "tuple": {"tuple"}, "set": {"set"}}
-EXC_OF_KIND = {"SUBSCRIPT": "TypeError", "KEYERROR": "KeyError", "ITERATE": "TypeError", "HASH": "TypeError", "ORDER": "TypeError",
+EXC_OF_KIND = {"INDEX": "IndexError", "SUBSCRIPT": "TypeError", "KEYERROR": "KeyError", "ITERATE": "TypeError", "HASH": "TypeError", "ORDER": "TypeError",
                "ATTR": "AttributeError", "FORMAT": "TypeError", "CONVERT": "TypeError", "CONTAINS": "TypeError", "CONSTRUCT": None}
 EXC_PARENTS = {"KeyError": ("LookupError",), "IndexError": ("LookupError",)}
 
@@ -467,6 +467,10 @@ class Analyzer:
                 self.hash_check(e, self.ev(key, env), "dict key")
                 out |= a[2] if a[2] else OTHER
             elif a[0] in ("list", "tuple"):
+                # a position in a sequence whose length comes from peer data: it may be empty (slices never raise)
+                if isinstance(key, ast.Constant) and isinstance(key.value, int) and not isinstance(key.value, bool) \
+                        and getattr(self, "peer_sequences_may_be_empty", False) and a[1]:
+                    self.sink(e, "INDEX", "index %d into a sequence built from peer data, which may be empty: %s" % (key.value, ast.unparse(e)[:70]))
                 out |= a[1] if a[1] else OTHER
             else:
                 out |= OTHER
